@@ -19,7 +19,8 @@ import (
 )
 
 type Op struct {
-	K  string   `json:"k"` // "put" | "reload" | "probe" | "puts"
+	K  string   `json:"k"` // "put" | "reload" | "probe" | "puts" | "hold" (Bytes, keep the image) | "loadheld" (FromBytes of image I)
+	I  int      `json:"i,omitempty"`
 	D  []byte   `json:"d,omitempty"`
 	Ns [][]byte `json:"ns,omitempty"` // "puts": a batch of names, observed as one step
 }
@@ -200,7 +201,9 @@ func run(in Input) lib.Result {
 	reloadAfterSplit := false
 	seen := map[string]bool{}
 	crash := ""
-	batched, maxSer := 0, 0
+	batched, maxSer, holds, loads := 0, 0, 0, 0
+	var images [][]byte
+	var heldKeys [][][]byte
 	for _, op := range in.Ops {
 		key := []byte{}
 		var batchKeys [][]byte
@@ -254,6 +257,46 @@ func run(in Input) lib.Result {
 			}
 			batched += len(op.Ns)
 			ops = append(ops, "CPuts "+lib.BytesList(op.Ns))
+		case "hold":
+			func() {
+				defer func() {
+					if r := recover(); r != nil {
+						ok = false
+					}
+				}()
+				b, err := d.Bytes()
+				if err != nil {
+					ok = false
+					return
+				}
+				images = append(images, b) // the slice Bytes returned, kept as it is
+				heldKeys = append(heldKeys, append([][]byte{}, keys...))
+			}()
+			holds++
+			ops = append(ops, "CHold")
+		case "loadheld":
+			func() {
+				defer func() {
+					if r := recover(); r != nil {
+						ok = false
+					}
+				}()
+				if op.I >= len(images) {
+					ok = false
+					return
+				}
+				d2, err := dict.FromBytes(images[op.I])
+				if err != nil {
+					ok = false
+					return
+				}
+				d = d2
+			}()
+			if op.I < len(heldKeys) {
+				keys = append([][]byte{}, heldKeys[op.I]...)
+			}
+			loads++
+			ops = append(ops, "CLoadHeld "+lib.Nat(op.I))
 		case "reload":
 			if b, err := d.Bytes(); err == nil && len(b) > maxSer {
 				maxSer = len(b)
@@ -299,7 +342,7 @@ func run(in Input) lib.Result {
 		NonTrivial: splits >= 1 && puts >= 2,
 		Feat: map[string]interface{}{"splits": splits, "reloads": reloads, "probes": probes, "puts": puts,
 			"max_name_len_class": lenClass(maxLen), "repeated_names": repeats, "reload_after_split": reloadAfterSplit,
-			"caller_buffer_reused": in.Reuse, "trie_depth_class": bigDepth(depthOf(d.VerifDump())), "root_children_256": len(d.VerifDump().Children) >= 256, "batched_puts_class": bigClass(batched), "max_serialized_4k_pages": maxSer / 4096},
+			"caller_buffer_reused": in.Reuse, "trie_depth_class": bigDepth(depthOf(d.VerifDump())), "root_children_256": len(d.VerifDump().Children) >= 256, "images_held": holds, "held_images_loaded": loads, "batched_puts_class": bigClass(batched), "max_serialized_4k_pages": maxSer / 4096},
 		Crash: crash,
 	}
 }
@@ -520,6 +563,61 @@ func genAllBytes(r *rand.Rand) Input {
 	return in
 }
 
+// one long name stored as ONE node, then its prefixes of every length in random order: every one of them splits
+// the chain at another position, and the key issued first has to be followed through all the splits
+func genSplitChain(r *rand.Rand) Input {
+	in := Input{Reuse: r.Intn(2) == 0}
+	l := lib.Range(r, 60, 120)
+	long := make([]byte, l)
+	for i := range long {
+		long[i] = "abcdefgh"[r.Intn(8)]
+	}
+	in.Ops = append(in.Ops, Op{K: "put", D: long})
+	lens := r.Perm(l - 1)
+	var pre [][]byte
+	for _, x := range lens {
+		pre = append(pre, append([]byte{}, long[:x+1]...))
+	}
+	half := len(pre) / 2
+	in.Ops = append(in.Ops, Op{K: "puts", Ns: pre[:half]}, Op{K: "reload"}, Op{K: "puts", Ns: pre[half:]}, Op{K: "reload"},
+		Op{K: "put", D: append(append([]byte{}, long...), 'z')})
+	return in
+}
+
+// images of earlier saves are kept while the dictionary changes and is saved again, and reloaded LATER
+func genHeld(r *rand.Rand) Input {
+	in := Input{Reuse: r.Intn(2) == 0}
+	var names [][]byte
+	put := func() {
+		n := randName(r, names)
+		names = append(names, n)
+		in.Ops = append(in.Ops, Op{K: "put", D: n})
+	}
+	for i := lib.Range(r, 1, 4); i > 0; i-- {
+		put()
+	}
+	in.Ops = append(in.Ops, Op{K: "hold"})
+	nh := 1
+	for round := lib.Range(r, 1, 3); round > 0; round-- {
+		for i := lib.Range(r, 1, 4); i > 0; i-- {
+			put()
+		}
+		if r.Intn(2) == 0 {
+			in.Ops = append(in.Ops, Op{K: "hold"})
+			nh++
+		} else {
+			in.Ops = append(in.Ops, Op{K: "reload"})
+		}
+		if r.Intn(2) == 0 {
+			in.Ops = append(in.Ops, Op{K: "loadheld", I: r.Intn(nh)})
+			put()
+		}
+	}
+	in.Ops = append(in.Ops, Op{K: "loadheld", I: r.Intn(nh)})
+	put()
+	return in
+}
+
 func lenClass(n int) string {
 	switch {
 	case n == 0:
@@ -651,6 +749,12 @@ func gen(r *rand.Rand, idx int, tier string) Input {
 	}
 	if idx%150 == 25 {
 		return genAllBytes(r)
+	}
+	if idx%150 == 125 {
+		return genSplitChain(r)
+	}
+	if idx%10 == 7 {
+		return genHeld(r)
 	}
 	var in Input
 	in.Reuse = r.Intn(2) == 0
